@@ -701,6 +701,10 @@ func (c *Ctx) ruleStopTearsDown(rule string) {
 				c.Rep.check(o.idx("cancel") >= 0 && o.idx("cancel") < wi, rule, "Restart", "context re-derived without cancelling the previous one (from "+s+")", o.End, "previous context cancelled before a new one is derived",
 					"Restart from "+s+" derives a new context without cancelling the previous run's: that run's listener goroutine stays blocked for as long as the parent context lives (one more per Restart): "+o.String())
 			}
+			if gi := o.idx("go:reaper"); gi >= 0 {
+				c.Rep.check(o.idx("stoptickers") >= 0 && o.idx("stoptickers") < gi, rule, "Restart", "previous run's tickers not stopped (from "+s+")", o.End, "stopTickers before the new reaper is spawned",
+					"Restart from "+s+" starts a new idle-worker reaper without stopping the previous run's ticker and reaper goroutine (only Stop does): one more goroutine and live ticker per Restart: "+o.String())
+			}
 			good := o.idx("stopall") >= 0 && o.idx("stopall") < o.idx("go:dispatcher") && o.idx("wait") >= 0 && o.idx("wait") < o.idx("stopall")
 			c.Rep.check(good, rule, "Restart", "idle nodes of the old run survive (from "+s+")", o.End, "Restart from "+s+": "+o.String(), "Restart from "+s+" must wait and remove the old run's idle nodes before starting the new run (their goroutines would accumulate): "+o.String())
 		}
